@@ -36,6 +36,44 @@ MANIFEST = {
 }
 
 
+def locate(meta):
+    """Anchors by role (private names may change)."""
+    global CHECK, NP, NF, WALKER
+    cg = hirq.CallGraph([meta])
+    reach = cg.reachable(["pest_meta::validator::validate_ast"])
+    bools = []
+    for p in sorted(reach):
+        fn = meta.fn(p)
+        if fn is None or fn.get("exp"):
+            continue
+        ms = traverse.enum_matches(fn, PEXPR)
+        selfrec = any(callee(n) == p for n in walk(fn["body"]))
+        if not ms or not selfrec:
+            continue
+        big = max(len(m["arms"]) for m in ms)
+        if fn.get("output", "").startswith("core::option::Option<pest::error::Error") and big >= 6:
+            CHECK = p
+        elif fn.get("output") == "bool" and big >= 10:
+            bools.append(p)
+        elif fn.get("output") == "()" and big >= 8:
+            WALKER = p
+    if len(bools) == 2:
+        # which is which: the non-progressing predicate is the one for which a predicate (!e) is `true`
+        def negpred_true(p):
+            fn = meta.fn(p)
+            m = max(traverse.enum_matches(fn, PEXPR), key=lambda x: len(x["arms"]))
+            for arm in m["arms"]:
+                if PEXPR + "::NegPred" in hirq.pat_variants(arm["pat"]):
+                    return hirq.lit_value(arm["body"]) is True
+            return False
+        a, b = bools
+        if negpred_true(a) and not negpred_true(b):
+            NP, NF = a, b
+        elif negpred_true(b) and not negpred_true(a):
+            NP, NF = b, a
+        # otherwise keep the default names (and let the equation table report)
+
+
 def run(rep, tier):
     rep.explanation = (
         "For each ParserExpr variant present in the analysed configuration (post-cfg ADT) the rules check the "
@@ -46,10 +84,12 @@ def run(rep, tier):
         f = facts.facts(cfg)
         meta = f.crate("pest_meta", want_feature="grammar-extras" if cfg == "extras" else None)
         sfx = "" if cfg == "default" else "@" + cfg
+        locate(meta)
         leftmost(rep, meta, sfx)
         trav(rep, meta, sfx)
         nullable(rep, meta, sfx)
         trace(rep, meta, sfx)
+        resolve(rep, meta, sfx)
         wiring(rep, meta, f, sfx)
 
 
@@ -381,6 +421,64 @@ def conj(n):
     if kind(n) == "Binary" and n["op"] == "&&":
         return conj(n["l"]) + conj(n["r"])
     return [n]
+
+
+# ------------------------------------------------------------------ RESOLVE
+
+def resolve(rep, meta, sfx):
+    r = rep.rule("C06.RESOLVE" + sfx, 3,
+                 "in the rule-reference case of the validator's recursions nothing but a test for a reserved "
+                 "keyword may answer before the grammar's own rule of that name is looked up (the back-ends run the "
+                 "user's rule for every non-keyword name)")
+    kw = meta.fn("pest_meta::validator::PEST_KEYWORDS")
+    keywords = set()
+    if kw is not None:
+        for x in walk(kw["body"]):
+            if kind(x) == "Array":
+                vals = x.get("lits") or [hirq.lit_value(e) for e in x.get("elems", [])]
+                keywords |= set(v for v in vals if isinstance(v, str))
+    if not keywords:
+        r.lost("validator::PEST_KEYWORDS")
+        return
+    for fnpath in (CHECK, NP, NF):
+        fn = meta.fn(fnpath)
+        if fn is None:
+            r.lost(fnpath)
+            continue
+        ms = traverse.enum_matches(fn, PEXPR)
+        m = max(ms, key=lambda x: len(x["arms"]))
+        arm = None
+        for a in m["arms"]:
+            if PEXPR + "::Ident" in hirq.pat_variants(a["pat"]):
+                arm = a
+        if arm is None:
+            r.lost("Ident arm of " + fnpath)
+            continue
+        ctx = hirq.Ctx(fn)
+        lookups = [x for x in walk(arm["body"]) if kind(x) == "MethodCall" and x["m"] == "get" and "HashMap" in x.get("rty", "")]
+        key = fnpath.split("::")[-1]
+        r.instance(key, where(arm["body"]))
+        if not lookups:
+            r.violation(key + ":lookup", where(arm["body"]), "the rule-reference case no longer looks the name up in the grammar")
+            continue
+        lk = lookups[0]
+        # early answers: `if c { return .. }` statements of the arm body that precede the lookup
+        for g in ctx.guards(lk):
+            if g[0] != "not":
+                continue
+            lits = [x.get("v") for x in walk(g[1]) if kind(x) == "Lit" and x.get("lk") == "str"]
+            cmp_only = all(kind(x) != "MethodCall" or x["m"] in ("eq", "ne") for x in walk(g[1]))
+            nonkw = [l for l in lits if l not in keywords]
+            uses_table = any(kind(x) == "MethodCall" and x["m"] in ("contains", "contains_key", "binary_search") for x in walk(g[1]))
+            # `trace[0] == other` (left recursion found) compares two names, no literal: not an early *classification*
+            if not lits and not uses_table:
+                continue
+            if nonkw or uses_table or not cmp_only:
+                r.violation(key + ":early-answer", where(g[1]),
+                            "`%s` answers before the grammar's own rule is looked up, for names that are not "
+                            "reserved keywords: a user rule named like a built-in (NEWLINE, LETTER, ..) is judged as "
+                            "the built-in while both back-ends run the user's rule, so an empty-matching body "
+                            "slips through the repetition / left-recursion checks" % hirq.expr_text(g[1]))
 
 
 # ------------------------------------------------------------------ WIRING
